@@ -64,6 +64,34 @@ fn hostile(rng: &mut Rng) -> String {
     rng.pick_str(HOSTILE_STR)
 }
 
+/// 1-6 tokens of a small grammar glued together: well-formed values, truncated ones, and nonsense
+pub fn compose(rng: &mut Rng, tokens: &[&str]) -> String {
+    let n = rng.range(1, 6);
+    let mut s = String::new();
+    for _ in 0..n {
+        s.push_str(&rng.pick_str(tokens));
+    }
+    s
+}
+
+const FORWARDED_TOKENS: &[&str] = &[
+    "for=", "For=", "by=", "proto=", "host=", "\"", "\"", ";", ",", " ", "=", "192.0.2.60", "[2001:db8::17]", ":4711", "_hidden", "unknown", "é", "\\", "for=\"", "\";", "http", "for",
+];
+const XFF_TOKENS: &[&str] = &["10.1.2.3", "8.8.8.8", "::1", "[::1]", ":80", ",", ", ", " ", "garbage", "é", "\"", "256.1.1.1", "1.2.3", "\u{0}", ""];
+const UA_TOKENS: &[&str] = &["Mozilla/5.0", " ", "(", ")", ";", "é", "\u{1f600}", "curl/8", "\t", "\"", "%s", "{}", ""];
+
+/// A value for a request header, hostile in the way that header's grammar invites
+pub fn hostile_header(rng: &mut Rng) -> (String, String) {
+    match rng.below(8) {
+        0 | 1 => (rng.pick_str(&["Forwarded", "forwarded", "FORWARDED"]), compose(rng, FORWARDED_TOKENS)),
+        2 => (rng.pick_str(&["X-Forwarded-For", "x-forwarded-for"]), compose(rng, XFF_TOKENS)),
+        3 => (rng.pick_str(&["User-Agent", "Referer", "Host", "X-Forwarded-Proto", "X-Forwarded-Host"]), compose(rng, UA_TOKENS)),
+        4 => (hostile(rng), hostile(rng)),
+        5 => (rng.pick_str(&["X-A", "x-b", "Accept-Language"]), compose(rng, UA_TOKENS)),
+        _ => (rng.pick_str(&["X-A", "x-forwarded-for", "Forwarded", "User-Agent"]), hostile(rng)),
+    }
+}
+
 fn corrupt_rule(rng: &mut Rng, r: &mut Value) {
     let n = rng.range(1, 3);
     for _ in 0..n {
@@ -244,7 +272,7 @@ impl World for W7 {
                 host: rng.pick(&[None, Some("example.com".to_string()), Some(hh)]).clone(),
                 scheme: rng.pick(&[None, Some("http".to_string()), Some(hs)]).clone(),
                 method: rng.pick(&[None, Some("GET".to_string()), Some(hm)]).clone(),
-                headers: (0..rng.below(3)).map(|_| (if rng.coin() { hostile(rng) } else { rng.pick_str(&["X-A", "x-forwarded-for", "Forwarded", "User-Agent"]) }, hostile(rng))).collect(),
+                headers: (0..rng.below(4)).map(|_| hostile_header(rng)).collect(),
                 ip: rng.pick(&[None, Some("10.1.2.3".to_string()), Some("::1".to_string())]).clone(),
                 created_at: rng.pick(&[None, Some("2025-06-15T15:06:40Z".to_string()), Some("garbage".to_string()), Some("1970-01-01T00:00:00Z".to_string()), Some("9999-12-31T23:59:59Z".to_string())]).clone(),
             });
